@@ -39,7 +39,7 @@ def Fn(kind: str, cls: int = 0, isasync: bool = False, chain: Sequence[str] = ("
 def Cls(inv: Sequence[int] = (), oncall: Optional[Sequence[int]] = None, onset: Sequence[int] = (), dbc: bool = True,
         slots: bool = False) -> dict:
     return {"inv": list(inv), "oncall": list(inv if oncall is None else oncall), "onset": list(onset), "dbc": dbc,
-            "slots": slots}
+            "slots": slots, "repr": 0, "base": 0}
 
 
 NOFAULT = {"at": 0, "kind": "", "n": 0}
@@ -337,3 +337,147 @@ def fam_order(tier: str, rng: random.Random) -> Iterator[dict]:
                                                 post_bits, ["default", "inst", "factory"], lam, isasync, tag="order")
                                 if p is not None:
                                     yield p
+
+
+# ------------------------------------------------------------------------------------------------------
+# C03: invariants around operations on instances.  Object states: 0 = not constructed, 1 = sound, 2 = broken.
+INV_TRUTH = [False, True, False]
+# invariant declarations of a class: list of check_on values in evaluation order
+INV_COMBOS = [["CALL"], ["ALL"], ["SETATTR"], ["CALL", "SETATTR"], ["SETATTR", "CALL"], ["CALL", "CALL"]]
+WRAPPED_KINDS = ("method", "getter", "setter", "deleter", "dunder")
+
+
+def class_prog(inv_on: Sequence[str], members: Sequence[Tuple[str, int]], ops: Sequence[Tuple[int, int]],
+               dbc: bool = True, slots: bool = False, init_setst: int = 1, inv_err: str = "default",
+               with_pre_on_first: bool = False, tag: str = "inv", ninst: int = 1) -> dict:
+    """A class with the given invariants; members = [(kind, setst)]; ops = [(member index from 1, instance)]."""
+    cons = []
+    inv, oncall, onset = [], [], []
+    for on in inv_on:
+        cons.append(Con("inv", inv_err, False, INV_TRUTH))
+        c = len(cons)
+        inv.append(c)
+        if on in ("CALL", "ALL"):
+            oncall.append(c)
+        if on in ("SETATTR", "ALL"):
+            onset.append(c)
+    cls = Cls(inv, oncall, onset, dbc=dbc, slots=slots)
+    fns = [Fn("init", 1, False, ["init"] if inv else [], out=[RetV(0)] * 3, setst=init_setst)]
+    for kind, setst in members:
+        if kind == "setattr":
+            chain = ["inv"] if onset else []
+        elif kind in WRAPPED_KINDS:
+            chain = ["inv"] if oncall else []
+        else:
+            chain = []
+        out = [RetV(0)] * 3 if kind in ("setter", "deleter", "repr", "setattr") else [RetV(10), RetV(11), RetV(12)]
+        pre = []
+        if with_pre_on_first and len(fns) == 1 and kind in WRAPPED_KINDS + ("protected",):
+            cons.append(Con("pre", "default", False, T3))
+            pre = [[len(cons)]]
+            chain = chain + ["chk"]
+        fns.append(Fn(kind, 1, False, chain, pre, out=out, setst=setst, setattr_=(kind == "setattr")))
+        if kind == "repr":
+            cls["repr"] = len(fns)
+    obj = [{"cls": 1, "st0": 0} for _ in range(ninst)]
+    drv = [Op("call", 1, o, 1) for o in range(1, ninst + 1)]
+    for m, o in ops:
+        kind = fns[m]["kind"]
+        a = 0 if kind in ("getter", "deleter", "repr") else 1
+        drv.append(Op("call", m + 1, 0 if kind in ("static", "class") else o, a))
+    return Prog(fns, cons, [], [cls], obj, [drv], tag=tag)
+
+
+def fam_inv(tier: str, rng: random.Random) -> Iterator[dict]:
+    """C03: member kinds x check_on combinations x operation sequences x object-state flips.
+
+    Two member sets: (A) with property setter / deleter and no __setattr__ of its own, (B) with a __setattr__
+    defined in Python.  In (A) a setter is exercised only in classes without SETATTR invariants: an assignment
+    goes through the (wrapped) __setattr__ first, a composition treated by its own family (fam_inv_setattr).
+    """
+    members_a = [("method", 0), ("method", 2), ("method", 1), ("protected", 2), ("private", 2), ("getter", 0),
+                 ("setter", 2), ("static", 0), ("class", 0), ("dunder", 0), ("repr", 0), ("deleter", 0)]
+    members_b = [("method", 0), ("method", 2), ("method", 1), ("protected", 2), ("getter", 0),
+                 ("setattr", 2), ("repr", 0)]
+    for members in (members_a, members_b):
+        nm = len(members)
+        seqs = [[(m, 1)] for m in range(1, nm + 1)]
+        seqs += [[(m1, 1), (m2, 1)] for m1 in range(1, nm + 1) for m2 in range(1, nm + 1)]
+        if tier == "thorough":
+            tri = [[(a, 1), (b, 1), (c, 1)] for a in range(1, nm + 1) for b in range(1, nm + 1)
+                   for c in range(1, nm + 1)]
+            rng.shuffle(tri)
+            seqs += tri[:600]
+        for inv_on in INV_COMBOS:
+            has_setattr_inv = any(on in ("SETATTR", "ALL") for on in inv_on)
+            for ops in seqs:
+                if has_setattr_inv and any(members[m - 1][0] == "setter" for m, _ in ops):
+                    continue
+                for dbc, slots in ((True, False), (False, False), (True, True)):
+                    if slots and any(k == "setattr" for k, _ in members):
+                        continue
+                    if tier != "thorough" and (dbc, slots) != (True, False) and len(ops) > 1 and rng.random() < 0.8:
+                        continue
+                    yield class_prog(inv_on, members, ops, dbc=dbc, slots=slots)
+    members = members_a
+    # the object is broken by the constructor itself; error forms of invariants
+    for inv_on in INV_COMBOS:
+        for form in ERR_FORMS:
+            yield class_prog(inv_on, members[:3], [(1, 1)], init_setst=2, inv_err=form, tag="inv-ctor-breaks")
+            yield class_prog(inv_on, members[:3], [(2, 1), (1, 1)], inv_err=form, tag="inv-err")
+    # two instances: operations on one never touch the other
+    for inv_on in (["CALL"], ["ALL"]):
+        for m1 in (1, 2, 3, 4):
+            for m2 in (1, 2, 3):
+                yield class_prog(inv_on, members[:5], [(m1, 1), (m2, 2), (1, 1)], ninst=2, tag="inv-two")
+
+
+def fam_inv_sub(tier: str, rng: random.Random) -> Iterator[dict]:
+    """C03: a subclass whose constructor calls the base constructor; members added by the subclass.
+
+    Base K1 with invariant A, subclass K2(K1) optionally adding invariant B.  States: 2 = base part built,
+    1 = fully built.  A holds in states 1 and 2, B only in state 1.
+    """
+    for base_on in (["CALL"], ["SETATTR"], ["CALL", "SETATTR"], ["SETATTR", "CALL"], ["ALL"]):
+        for sub_on in ([], ["CALL"], ["SETATTR"]):
+            for super_pos in ("first", "last", "never", "noinit"):
+                for base_sets in (2, 1):
+                    cons = []
+                    inv1, oncall1, onset1 = [], [], []
+                    for on in base_on:
+                        cons.append(Con("inv", "default", False, [False, True, True]))
+                        inv1.append(len(cons))
+                        if on in ("CALL", "ALL"):
+                            oncall1.append(len(cons))
+                        if on in ("SETATTR", "ALL"):
+                            onset1.append(len(cons))
+                    inv2, oncall2, onset2 = list(inv1), list(oncall1), list(onset1)
+                    for on in sub_on:
+                        cons.append(Con("inv", "default", False, [False, True, False]))
+                        inv2.append(len(cons))
+                        if on in ("CALL", "ALL"):
+                            oncall2.append(len(cons))
+                        if on in ("SETATTR", "ALL"):
+                            onset2.append(len(cons))
+                    c1 = Cls(inv1, oncall1, onset1)
+                    c2 = Cls(inv2, oncall2, onset2)
+                    c2["base"] = 1
+                    fns = [Fn("init", 1, False, ["init"], out=[RetV(0)] * 3, setst=base_sets),
+                           Fn("method", 1, False, ["inv"] if oncall2 else [], setst=0)]
+                    if super_pos != "noinit":
+                        script = [Op("call", 1, 1, 1)] if super_pos in ("first", "last") else []
+                        fns.append(Fn("init", 2, False, ["init"], script=script, out=[RetV(0)] * 3, setst=1))
+                        ctor = 3
+                    else:
+                        ctor = 1
+                    fns.append(Fn("method", 2, False, ["inv"] if oncall2 else [], setst=2))   # breaks B
+                    n_break = len(fns)
+                    fns.append(Fn("method", 2, False, ["inv"] if oncall2 else [], setst=1))   # repairs
+                    n_fix = len(fns)
+                    fns.append(Fn("getter", 2, False, ["inv"] if oncall2 else [], setst=0))
+                    n_get = len(fns)
+                    obj = [{"cls": 2, "st0": 0}]
+                    for ops in ([], [(2, 1)], [(n_break, 1), (n_get, 0)], [(n_break, 1), (n_fix, 1), (2, 1)], [(n_get, 0)]):
+                        drv = [Op("call", ctor, 1, 1)] + [Op("call", m, 1, a) for m, a in ops]
+                        yield Prog([dict(f) for f in fns], [dict(c) for c in cons], [], [dict(c1), dict(c2)], obj, [drv],
+                                   tag="inv-sub")
